@@ -2,6 +2,7 @@ import PgBifrost.Proofs.LedgerSimple.Drain
 import PgBifrost.Proofs.LedgerRefine
 import PgBifrost.Proofs.LedgerSpecSound
 import PgBifrost.Proofs.ClientC02
+import PgBifrost.Proofs.SysExample
 /-!
 # C02 — the ledger never wedges (property theorems)
 
@@ -158,5 +159,58 @@ example : fwdsOf (acts (hist .fixedC f2c)) = [(.begin, "6", some ("6", 1000), 11
     (.commit, "6", some ("6", 1000), 115), (.begin, "7", some ("7", 2000), 120),
     (.change, "7", some ("7", 2000), 125), (.commit, "7", some ("7", 2000), 115)] := by decide
 end client
+
+/-! ## Top: the composed system quiesces (`Model/Sys.lean`; `Sys.Env`, `Sys.Sched`: see `Props/C01.lean`) -/
+section sys
+open PgBifrost.Batch
+variable {K : Kind} {big bad : Msg → Bool} {dom : Msg → Prop}
+
+/-- **C02 Top (`sys_quiesces`).** Suppose the whole input was fed and it does not end inside a
+transaction (`g.cur = none` for the grammar state `g` of the fed stream; with redelivery: every
+interrupted delivery was redelivered and that redelivery committed), nothing is left between the
+batcher and the tracker (`Sys.Quiet`: every queue empty, every worker idle, the written channel
+consumed, the batcher's seen list empty and no open batch with a non-empty `txns`), and no data
+message was dropped as invalid without being counted (`big m || !bad m`). Then the tracker is alive
+with some ledger `l`; one more `emit` leaves the ledger empty; and unless the ledger was already
+empty that emit acknowledges the LSN of the last COMMIT of the input. Uses `ledger_drains_partial`
+(L1), the trace contract (L2) and the batcher's accounting (`txns_global_accounting`, `seen_log_exact`). -/
+theorem sys_quiesces (bcfg : Batcher.Cfg) (redeliver : Bool) (acts : List Sys.Act)
+    (hE : Sys.Env redeliver K big bad dom acts) (hs : Sys.Sched redeliver ⟨K, bcfg⟩ acts)
+    (g : Sys.GState) (hg : Sys.gscan redeliver (Sys.fedMsgs acts) = some g)
+    (hcomplete : g.cur = none) (hQ : Sys.Quiet (Sys.run ⟨K, bcfg⟩ acts))
+    (hvalid : ∀ m ∈ Sys.fedMsgs acts, m.op = .data → (big m || !bad m) = true) :
+    ∃ l, (Sys.run ⟨K, bcfg⟩ acts).ledger = some l ∧
+      (Sys.run ⟨K, bcfg⟩ (acts ++ [.emit])).ledger = some (PgBifrost.Ledger.emit l).2 ∧
+      (PgBifrost.Ledger.emit l).2.items = [] ∧
+      (l.items ≠ [] →
+        (Sys.run ⟨K, bcfg⟩ (acts ++ [.emit])).acks =
+          (Sys.run ⟨K, bcfg⟩ acts).acks ++ [Sys.lastCommitLsn (Sys.fedMsgs acts)]) := by
+  obtain ⟨hC, hS, hD, hSup, hmax, l, hl, hrun⟩ :=
+    Sys.quiesce_hyps bcfg hE.kind redeliver acts hE.dom g hg hs hcomplete hQ hvalid
+  obtain ⟨h1, h2⟩ := ledger_drains_partial hC hS hD hSup hrun
+  have hdead : (Sys.run ⟨K, bcfg⟩ acts).dead = false := by simp [Sys.SysState.dead, hl]
+  have hstep : Sys.run ⟨K, bcfg⟩ (acts ++ [.emit]) = Sys.stepLive ⟨K, bcfg⟩ (Sys.run ⟨K, bcfg⟩ acts) .emit := by
+    rw [Sys.run_snoc, Sys.step_live _ hdead]
+  refine ⟨l, hl, ?_, h1, fun hne => ?_⟩
+  · rw [hstep]; simp [Sys.stepLive, Sys.perform, Sys.ledApply, hl, PgBifrost.Ledger.step]
+  · have hv := h2 hne
+    rw [hmax, Sys.gscan_last _ _ hg] at hv
+    rw [hstep]; simp [Sys.stepLive, Sys.perform, hl, hv]
+
+/-- non-vacuity: `Sys.exActs'` (the example run stopped before its last emit) is quiescent with one
+entry left in the ledger; the theorem says the next emit acknowledges 113 and empties the ledger -/
+example : ∃ l, (Sys.run Sys.exCfg Sys.exActs').ledger = some l ∧
+      (Sys.run Sys.exCfg (Sys.exActs' ++ [.emit])).ledger = some (PgBifrost.Ledger.emit l).2 ∧
+      (PgBifrost.Ledger.emit l).2.items = [] ∧
+      (l.items ≠ [] → (Sys.run Sys.exCfg (Sys.exActs' ++ [.emit])).acks =
+          (Sys.run Sys.exCfg Sys.exActs').acks ++ [Sys.lastCommitLsn (Sys.fedMsgs Sys.exActs')]) :=
+  sys_quiesces Sys.exCfg.bcfg false Sys.exActs' Sys.exEnv' (Or.inl rfl)
+    { cur := none, used := [80, 70], usedT := [8, 7], last := 113, intr := [] } (by decide) rfl Sys.ex_quiet'
+    (fun _ _ _ => rfl)
+
+example : (Sys.run Sys.exCfg Sys.exActs').ledger = some ⟨[⟨8, 80, 113, 2, 2⟩], [(8, 80)]⟩ ∧
+    Sys.lastCommitLsn (Sys.fedMsgs Sys.exActs') = 113 := ⟨Sys.ex_ledger', by decide⟩
+
+end sys
 
 end PgBifrost.Props.C02
